@@ -29,7 +29,7 @@ def plan(tier, seed):
         if tier == "quick" and (name.endswith(".can") or name.startswith(skip)):
             continue
         cases.append({"kind": "equal", "reaction": {"kind": "fixture", "name": name}, "dynamics": "bw", "seed": int(rng.integers(1 << 30)), "cost": 20.0})
-    n_syn = 28 if tier == "quick" else 500
+    n_syn = 28 if tier == "quick" else 220
     for k in range(n_syn):
         cases.append({"kind": "equal", "reaction": {"kind": "synth", "seed": int(rng.integers(1 << 30)), "n_final": [3, 3, 3, 4][k % 4],
                                                     "formalism": "helicity" if (k % 4 == 3 and tier == "quick") else ["helicity", "canonical-helicity"][k % 2],
@@ -37,7 +37,7 @@ def plan(tier, seed):
                       "dynamics": ["bw", "none"][k % 2], "seed": int(rng.integers(1 << 30)), "cost": 15.0, "warmup": k % 2 == 1})
     # a massless particle listed before a recoil system that contains a massive final-state particle of integer
     # spin >= 1: the massive particle's rotation chain passes a node whose helicity state is the massless one
-    for k in range(6 if tier == "quick" else 80):
+    for k in range(6 if tier == "quick" else 40):
         cases.append({"kind": "equal", "reaction": {"kind": "synth", "seed": int(rng.integers(1 << 30)), "n_final": [3, 3, 4][k % 3],
                                                     "formalism": "helicity", "max_spin2": 2, "massless": True,
                                                     "want": "massless_before_massive_vector"},
